@@ -192,7 +192,7 @@ fn histories(ctx: &Ctx, thorough: bool) {
     // baselines: each call on its own freshly loaded sprite
     let base: Vec<u64> = CALLS.iter().map(|(_, c)| c(&fresh())).collect();
     let base_obs = hash64(&observe::observe(&fresh(), &want));
-    let depth = if thorough { 5 } else { 4 };
+    let depth = if thorough { 6 } else { 4 };
     let fam = format!("histories-depth{}", depth);
     if ctx.wants_family(&fam) {
         let n = CALLS.len();
@@ -429,7 +429,7 @@ fn configurations(ctx: &Ctx, thorough: bool) {
     // input family: field corruptions of the bases that load, M3, stack sprites
     let mut fams: Vec<faults::InputFam> = Vec::new();
     let bases = faults::based_files(false);
-    fams.extend(faults::m2(&bases, false).into_iter().filter(|f| f.name.starts_with("M2-field") && (thorough || !f.name.ends_with("-big"))));
+    fams.extend(faults::m2(&bases, false).into_iter().filter(|f| (f.name.starts_with("M2-field") && !f.name.ends_with("-big")) || (thorough && f.name == "M2-structural-big")));
     fams.push(faults::m3());
     fams.push(faults::m7());
     {
@@ -446,6 +446,11 @@ fn configurations(ctx: &Ctx, thorough: bool) {
         ctx.family(&fname, fam.n as u64 * profiles.len() as u64, &format!("{} — load + full walk in profiles {:?}; (status, 64-bit observation digest) must agree case by case", fam.what, profiles), true);
         let mut results: Vec<HashMap<usize, (String, u64)>> = Vec::new();
         for prof in &profiles {
+            // rendering the 400 KB base unoptimised takes minutes per hundred inputs: `big` is compared between the two optimised profiles only
+            if *prof == "unopt" && fam.name.ends_with("-big") {
+                results.push(HashMap::new());
+                continue;
+            }
             let pool = Pool::new(prof, 16, 60.0);
             let map: Mutex<HashMap<usize, (String, u64)>> = Mutex::new(HashMap::new());
             pool.run(fam.n, &|i| (worker::KIND_LOAD_WALK, 4u64 << 30, (fam.gen)(i)), &|i, _b, r: TaskResult| {
@@ -467,6 +472,9 @@ fn configurations(ctx: &Ctx, thorough: bool) {
             let first = results[0].get(&i);
             ctx.outcome(hash64(&first));
             for (pi, r) in results.iter().enumerate().skip(1) {
+                if r.is_empty() {
+                    continue;
+                }
                 if r.get(&i) != first {
                     ctx.violation(Violation {
                         family: fname.clone(),
